@@ -801,7 +801,19 @@ func ruleH3w(c *Ctx, rels ...string) {
 							bad = "sent on a channel at " + c.pos(x.Pos())
 						}
 					case *ssa.Return:
-						bad = "returned at " + c.pos(x.Pos())
+						// an unexported helper that only fetches (and resets) the pooled value: the obligation moves to
+						// its callers, where the value is followed on
+						h := x.Parent()
+						idx := c.callSites()
+						if h.Parent() == nil && !token.IsExported(h.Name()) && !idx.escapes[h] && len(idx.sites[h]) > 0 {
+							for _, site := range idx.sites[h] {
+								if cv, ok := site.(ssa.Value); ok {
+									follow(cv, d+1)
+								}
+							}
+						} else {
+							bad = "returned at " + c.pos(x.Pos())
+						}
 					}
 				}
 			}
